@@ -113,7 +113,9 @@ def plan(tier, ctx):
     for (n, ao) in fin:
         for cls in (8, 9):
             for hist in (0, 1):
-                qs.append(asmfinish_query(n, ao, cls, hist, core=False, witness=((n, ao, cls, hist) == (4, 64, 8, 0))))
+                qs.append(asmfinish_query(n, ao, cls, hist, core=False, witness=((n, ao, cls, hist) == (3, 64, 8, 0))))
+    if not quick:   # the match-finder paths (n >= 4 with output space): attempted with a long budget, no verdict so far (DESIGN 4b)
+        qs.append(asmfinish_query(4, 64, 8, 0, core=False, timeout=3000))
     return Plan("C10", "model_checking", qs,
                 functions_encoded=["isal_deflate_stateless", "isal_deflate_int_stateless", "write_stream_header_stateless",
                                    "write_deflate_header_stateless", "write_stored_block", "write_type0_header", "write_trailer",
